@@ -75,8 +75,8 @@ def gen(rng, idx, tier):
         # explicit CFF width bases ("integer or float" in the UFO spec): a glyph's advance must
         # not depend on them - equal to a glyph width, fractional, zero
         ws = [g["width"] for g in glyphs] or [500]
-        info["postscriptDefaultWidthX"] = rng.choice([rng.choice(ws), 500.5, 400, 0, 600.25])
-        info["postscriptNominalWidthX"] = rng.choice([rng.choice(ws), 92.5, 93, 0, 250.75])
+        info["postscriptDefaultWidthX"] = rng.choice([rng.choice(ws), 500.5, 400, 0, 600.25, -10])
+        info["postscriptNominalWidthX"] = rng.choice([rng.choice(ws), 92.5, 93, 0, 250.75, -40, -250.5])
     ufo_lib = {}
     if stratum == "default" and rng.random() < 0.15:
         # lib filters that must not change what is drawn (glyphsLib writes the first one):
